@@ -67,7 +67,8 @@ class Expander:
                     if u is not None:
                         dn, rhs = u
                         return exp.expand(rhs, dn, depth - 1, stop)
-                    return n
+                    # no definition of the whole path in this function: a prefix (the local it hangs off) may still have one
+                    return self.generic_visit(n)
                 return self.generic_visit(n)
 
             def visit_Lambda(self, n):
